@@ -323,7 +323,7 @@ void vd_install_handlers(void)
     sa.sa_sigaction = on_fault; sa.sa_flags = SA_SIGINFO | SA_NODEFER | SA_ONSTACK;
     sigaction(SIGSEGV, &sa, NULL); sigaction(SIGBUS, &sa, NULL); sigaction(SIGFPE, &sa, NULL); sigaction(SIGILL, &sa, NULL);
     sigaction(SIGABRT, &sa, NULL);
-    memset(&sa, 0, sizeof(sa)); sa.sa_handler = on_alarm; sa.sa_flags = SA_NODEFER | SA_ONSTACK;
+    memset(&sa, 0, sizeof(sa)); sa.sa_handler = on_alarm; sa.sa_flags = SA_NODEFER | SA_ONSTACK | SA_RESTART;
     sigaction(SIGALRM, &sa, NULL);
     it.it_interval.tv_sec = 5; it.it_interval.tv_usec = 0; it.it_value = it.it_interval;
     setitimer(ITIMER_REAL, &it, NULL);
